@@ -17,7 +17,7 @@ MACHS = [0.0, 0.02, 0.1, 0.3, 0.5, 0.8, 0.95, 1.05, 1.5, 3.0]
 
 
 def setup(ctx):
-    ctx.require("rhs1d", "solve1d", "rhs2d", "solve2d", "nozzle-rest")
+    ctx.require("rhs1d", "solve1d", "rhs2d", "solve2d", "nozzle-rest", "mirror-pair")
 
 
 def _euler_bcs(rng, rho, u, p, gam):
@@ -279,3 +279,37 @@ def solve2d(ctx, rng, idx):
         ctx.close("solve2d:drift", np.max(np.abs(res[-1].data[i] - f.data[i])) / qs[i] / cond ** nstep / nstep, TOL, "solve2d/uniform-drifts/" + desc["kind"],
                   {"eq": i, "integrator": iname}, cls="solve2d")
     ctx.nontrivial("solve2d", iname, cfl, nstep, desc)
+
+
+@group(quick=200, thorough=6000)
+def mirror_pairs(ctx, rng, idx):
+    """a uniform state with matching inlet/outlet conditions AND, in the same process, its mirror image (velocity negated, conditions
+    exchanged, the SAME parameter values): both are fixed points, in either order"""
+    mname = ["euler1d", "nozzle"][idx % 2]
+    gam = float(rng.choice([1.4, 5 / 3, 1.2]))
+    rho, p = float(10 ** rng.uniform(-2, 2)), float(10 ** rng.uniform(-2, 2))
+    mach = float(rng.choice([0.3, 0.8, 1.5, 2.5]))
+    c = np.sqrt(gam * p / rho)
+    pt, rtt = refs.totals(rho, mach * c, p, gam)
+    inl = {"type": str(rng.choice(["insup", "insub", "insub_cbc"] if mach < 1 else ["insup"])), "ptot": float(pt), "rttot": float(rtt), "p": float(p)}
+    out = {"type": str(rng.choice(OUTLETS)), "p": float(p)}
+    order = [1, -1] if rng.random() < 0.5 else [-1, 1]
+    ctx.describe(model=mname, gamma=gam, state=[rho, mach * c, p], inlet=inl, outlet=out, order=order)
+    cond = 1.0 + 1.0 / mach ** 2 if inl["type"] in ("insub", "insub_cbc") or out["type"] == "outsub_qtot" else 1.0
+    for sgn in order:
+        model, _ = gen.make_model(mname, rng, gamma=gam)
+        mesh, mdesc = gen.mesh1d(rng, nmin=3, nmax=12)
+        num, rname = gen.any_recon(rng)
+        flux = gen.FLUXES[mname][int(rng.integers(len(gen.FLUXES[mname])))]
+        bcL, bcR = (dict(inl), dict(out)) if sgn > 0 else (dict(out), dict(inl))
+        disc = md.fvm(model, mesh, num, numflux=flux, bcL=bcL, bcR=bcR)
+        n = mesh.ncell
+        f = gen.fdata_prim(model, mesh, [np.full(n, rho), np.full(n, sgn * mach * c), np.full(n, p)])
+        r = disc.rhs(f)
+        s_ = mach * c + c
+        fs = [rho * s_, rho * s_ * s_, rho * s_ ** 3]
+        dxmin = float(np.min(mesh.vol()))
+        for i in range(3):
+            ctx.close("mirror-pair:residual", np.max(np.abs(r[i])) * dxmin / fs[i] / cond, TOL, "mirror-pair/uniform-not-fixed/%s-%s/%s" % (inl["type"], out["type"], "first" if sgn == order[0] else "second-configuration"),
+                      {"eq": i, "flow direction": sgn, "recon": rname, "flux": flux}, cls="mirror-pair")
+    ctx.nontrivial("mirror", mname, gam, rho, p, mach, inl["type"], out["type"], order)
